@@ -472,7 +472,7 @@ fn main() {
     let n1 = "samples_within_requested_range";
     let n2 = "samples_uniform_in_volume";
     if ctx.enabled(n1) || ctx.enabled(n2) {
-        let rule1 = "every colour type with sampling support (Srgb, LinSrgb, Xyz, Yxy, Lab, Luv, Oklab, Lch, Lchuv, Oklch, Hsl, Hsv, Hwb, Hsluv, Okhsl, Okhsv, Okhwb) x f32/f64: (a) rng.gen() over many StdRng and Mt64 streams lies within the type's bounds (is_within_bounds and the documented component ranges, hue in [0, 360]); (b) Uniform::new / new_inclusive between seeded end points (full range, sub-ranges, ends sharing a bound, equal ends for inclusive; hue arcs that are tiny, wide, and wrap through 0 degrees from raw hues in [-360, 1080)): every component between the ends (HWB: equivalent HSV saturation and value), hue on the arc from the low hue to the high hue, construction does not panic; distinct = (type, float, sampler kind, stream / range bucket)";
+        let rule1 = "every colour type with sampling support (Srgb, LinSrgb, Xyz, Yxy, Lab, Luv, Oklab, Lch, Lchuv, Oklch, Hsl, Hsv, Hwb, Hsluv, Okhsl, Okhsv, Okhwb; Xyz, Yxy, Lab, Lch also with white points D50 / A) x f32/f64: (a) rng.gen() over many StdRng and Mt64 streams lies within the type's bounds (is_within_bounds and the documented component ranges, hue in [0, 360]); (b) Uniform::new / new_inclusive between seeded end points (full range, sub-ranges, ends sharing a bound, equal ends for inclusive; hue arcs that are tiny, wide, and wrap through 0 degrees from raw hues in [-360, 1080)): every component between the ends (HWB: equivalent HSV saturation and value), hue on the arc from the low hue to the high hue, construction does not panic; distinct = (type, float, sampler kind, stream / range bucket)";
         let rule2 = "cone (Hsv, Okhsv, Hwb, Okhwb), bicone (Hsl, Okhsl, Hsluv) and cylinder (Lch, Lchuv, Oklch) samplers: the samples, mapped through the volume CDF of the shape (value^3, bicone height CDF 4 l^3 / 1 - 4 (1-l)^3, radius^2, hue / arc) relative to the requested sub-volume, are uniform: chi-square over 32 bins per coordinate below the p = 1e-12 critical value (121.9), for the Standard distribution and for Uniform samplers over full and partial ranges; distinct = (type, float, sampler)";
         let res = par(4, |t| {
             let mut m = Monitor::new(n1, rule1);
@@ -503,6 +503,13 @@ fn main() {
             ty!(14, "Okhsv", Okhsv<f64>, Okhsv<f32>, Shape::Cone, true);
             ty!(15, "Okhsl", Okhsl<f64>, Okhsl<f32>, Shape::Bicone { unit: 1.0 }, true);
             ty!(16, "Okhwb", Okhwb<f64>, Okhwb<f32>, Shape::HwbCone, true);
+            // non-default white points (the bounds of Xyz are the white point's own components)
+            use palette::white_point::{A, D50};
+            ty!(17, "Xyz<D50>", Xyz<D50, f64>, Xyz<D50, f32>, Shape::Cart([(0.0, 0.96422), (0.0, 1.0), (0.0, 0.82521)]), true);
+            ty!(18, "Xyz<A>", Xyz<A, f64>, Xyz<A, f32>, Shape::Cart([(0.0, 1.09850), (0.0, 1.0), (0.0, 0.35585)]), true);
+            ty!(19, "Lab<D50>", Lab<D50, f64>, Lab<D50, f32>, Shape::Cart([(0.0, 100.0), (-128.0, 127.0), (-128.0, 127.0)]), true);
+            ty!(20, "Lch<D50>", Lch<D50, f64>, Lch<D50, f32>, Shape::Cyl { h: 2, z: 0, r: 1, zmax: 100.0, rmax: 128.0 }, true);
+            ty!(21, "Yxy<D50>", Yxy<D50, f64>, Yxy<D50, f32>, Shape::Cart(unit), true);
             vec![m, u]
         });
         for mut m in res {
